@@ -439,7 +439,7 @@ def dialAddr (u : Url) : Bytes :=
   let h := urlHostname u.host
   let p := urlPort u.host
   let p := if p.isEmpty then (match u.scheme with | .http => [56, 48] | .https => [52, 52, 51]) else p
-  if h.contains 58 || h.contains 37 then 91 :: h ++ 93 :: 58 :: p else h ++ 58 :: p
+  if h.contains 58 then 91 :: h ++ 93 :: 58 :: p else h ++ 58 :: p
 
 /-- The `Host` header the HTTP/1.1 transport writes. -/
 def wireHost (r : Req) : Bytes := removeZone (if r.hostField.isEmpty then r.url.host else r.hostField)
@@ -502,5 +502,40 @@ def apiStart (ps : List (Option Policy)) (jar : Bool) (cl : ApiClient) (a : ApiC
     (script : List Reply) : List Req × End :=
   let ireq := initialRequest cl a
   start { ps := ps, jar := jar, getBody := ireq.body, noBody := !ireq.body } ireq script
+
+/-! ## Alt-Svc: the alternative service carries a COPY
+
+transport.go `roundTripAltSvc` / `checkAltSvc`: when the Alt-Svc jar has an entry for the origin of an
+https request, the request is CLONED, the clone's URL gets the alternative's host/port
+(`altsvcutil.ConvertURL`) and the clone goes to the HTTP/2 or HTTP/3 round tripper. The request object
+net/http keeps in `reqs` (= `via`) is not touched, so nothing in `run` depends on the jar: the URLs
+the policies see are the caller's URL and the resolved Locations (`consecutive_requests`). -/
+
+/-- `altsvc.AltSvc` host and port; `[]` = same as the origin. -/
+structure AltSvc where
+  host : Bytes := []
+  port : Bytes := []
+  deriving DecidableEq, Repr
+
+/-- netutil `AuthorityHostPort` on ASCII authorities: `net.SplitHostPort`, and on its error the whole
+authority with the scheme's default port. -/
+def authorityHostPort (scheme : Scheme) (authority : Bytes) : Bytes × Bytes :=
+  match Legacy.netSplitHostPort authority with
+  | .ok (h, p) => (h, p)
+  | .error _ => (authority, match scheme with | .http => [56, 48] | .https => [52, 52, 51])
+
+/-- `net.JoinHostPort`. -/
+def joinHostPort (h p : Bytes) : Bytes := if h.contains 58 then 91 :: h ++ 93 :: 58 :: p else h ++ 58 :: p
+
+/-- `altsvcutil.ConvertURL`: `URL.Host` of the copy. -/
+def convertHost (a : AltSvc) (scheme : Scheme) (host : Bytes) : Bytes :=
+  let hp := authorityHostPort scheme host
+  let h := if !a.host.isEmpty && a.host != hp.1 then a.host else hp.1
+  let p := if !a.port.isEmpty && a.port != hp.2 then a.port else hp.2
+  if h != hp.1 || p != hp.2 then joinHostPort h p else host
+
+/-- The request the alternative service's round tripper is handed. -/
+def altCarried (a : AltSvc) (r : Req) : Req :=
+  { r with url := { r.url with host := convertHost a r.url.scheme r.url.host } }
 
 end Req.Redirect.Loop
